@@ -100,6 +100,7 @@ class World:
     CHUNK = 100
     MAX_STEPS = 300000
     SHRINK_LISTS = ["ops", "faults"]     # plan keys that hold lists ddmin may thin out
+    ALLOC_BOMB_VIOLATION = False         # worlds with hostile peers: a decoder asked to allocate absurdly much is a finding
     THREADED = True
 
     # ---- to be provided by subclasses
@@ -166,6 +167,11 @@ class World:
                 harness = "scenario-exception: " + traceback.format_exc()[-1500:]
         finally:
             CURRENT["sched"] = None
+            if self.ALLOC_BOMB_VIOLATION and seams.marshalguard.BOMBS and harness is None:
+                typ, k, left = seams.marshalguard.BOMBS[0]
+                ctx.violations.append({"kind": "decoder-allocation-bomb", "key": "marshal", "msg": "marshal.loads was handed a message that "
+                                       "declares a %s of %d elements with %d bytes left: the C decoder allocates that much up front (GIL held); "
+                                       "simulated as a failed allocation" % (typ, k, left)})
             for t in sched.deaths:
                 if t.died and t.died[0] == "BusyLoop" and not any(v["kind"] == "busy-loop" for v in ctx.violations):
                     if t.died[2] is None:
